@@ -425,6 +425,9 @@ func (st *c05Streamer) NewStream(ctx context.Context, peer p2p.Peer, _ p2p.Heade
 	fp.mu.Lock()
 	fp.contacts = append(fp.contacts, s)
 	fp.mu.Unlock()
+	if err := ctx.Err(); err != nil {
+		return nil, err // like the real transport: no stream on an expired context
+	}
 	if fp.prep.mode == c05ModeNewStreamErr {
 		if !fp.park(ctx, st) {
 			return nil, ctx.Err()
@@ -439,6 +442,9 @@ func (s *c05FakeStream) WriteMsg(ctx context.Context, m proto.Message) error {
 	s.mu.Lock()
 	s.writes = append(s.writes, b)
 	s.mu.Unlock()
+	if err := ctx.Err(); err != nil {
+		return err
+	}
 	if s.fp.prep.mode == c05ModeWriteErr {
 		if !s.fp.park(ctx, s.st) {
 			return ctx.Err()
@@ -894,9 +900,10 @@ func (c05Registry) CheckProviderRegistered(context.Context, common.Address) bool
 // reads go straight to the real stream
 type c05RecStream struct {
 	p2p.Stream
-	addr   common.Address
-	mu     sync.Mutex
-	writes [][]byte
+	addr     common.Address
+	mu       sync.Mutex
+	writes   [][]byte
+	lateOpen bool // NewStream failed with the caller's context already over
 }
 
 func (s *c05RecStream) WriteMsg(ctx context.Context, m proto.Message) error {
@@ -920,6 +927,11 @@ func (r *c05RecStreamer) NewStream(ctx context.Context, pe p2p.Peer, h p2p.Heade
 	r.mu.Unlock()
 	st, err := r.inner.NewStream(ctx, pe, h, d)
 	if err != nil {
+		if ctx.Err() != nil {
+			rs.mu.Lock()
+			rs.lateOpen = true
+			rs.mu.Unlock()
+		}
 		return nil, err
 	}
 	rs.Stream = st
@@ -1126,6 +1138,19 @@ func c05RunReal(in c05In, slow int) (obs c05Obs, skip string) {
 		obs.Ret = 1
 		return obs, ""
 	}
+	lateOpen := func() bool {
+		rec.mu.Lock()
+		defer rec.mu.Unlock()
+		for _, c := range rec.contacts {
+			c.mu.Lock()
+			l := c.lateOpen
+			c.mu.Unlock()
+			if l {
+				return true
+			}
+		}
+		return false
+	}
 	lateT := time.NewTimer(lateAfter)
 	defer lateT.Stop()
 	limit := time.NewTimer(window)
@@ -1144,6 +1169,11 @@ func c05RunReal(in c05In, slow int) (obs c05Obs, skip string) {
 					obs.Closed = in.Deadline
 				}
 				obs.GorBack = true
+				if lateOpen() {
+					// the class assumes streams are opened long before the deadline; a run in which
+					// the deadline overtook NewStream maps to no abstract schedule
+					return obs, "the deadline passed before a stream was open"
+				}
 				return obs, ""
 			}
 			step := 1
@@ -1566,7 +1596,7 @@ func c05CoqCase(id int, in c05In, obs c05Obs) string {
 		dl = 0
 	}
 	term := coqRecord("id", coqN(uint64(id)), "args", args, "csb", coqList(csb), "vtbl", coqList(vtbl),
-		"view", coqList(view), "deadline", coqN(uint64(dl)), "o_ret", coqN(uint64(obs.Ret)),
+		"view", coqList(view), "deadline", coqN(uint64(dl)), "on_real", coqBool(in.Real), "o_ret", coqN(uint64(obs.Ret)),
 		"o_contacted", coqList(contacted), "o_delivered", coqList(delivered),
 		"o_closed", coqOpt(obs.Closed >= 0, coqN(uint64(max(obs.Closed, 0)))))
 	return c05Share(term)
